@@ -70,6 +70,8 @@ func (t *Topology) Get(kind string) *PeerList {
 // Each list is built excluding all the nodes in the list l, shuffling the result,
 // and taking the n elements from the head of the list.
 func (t *Topology) Each(n int, l *PeerList) *PeerList {
+	t.Lock()
+	defer t.Unlock()
 	var p PeerList
 
 	for _, list := range t.m {
